@@ -1127,6 +1127,40 @@ func callBuiltin(caller *frame, callpos token.Pos, fn *ssa.Builtin, args []value
 
 	case "ssa:deferstack":
 		return &caller.defers
+
+	// unsafe.{String,StringData,Slice,SliceData}: pointers into []value backing arrays are real Go pointers
+	case "String":
+		n := int(concInt(args[1], "unsafe.String"))
+		if n == 0 {
+			return ""
+		}
+		p, ok := args[0].(*value)
+		if !ok || p == nil {
+			panic(pathAbort{"unsafe.String on unsupported pointer"})
+		}
+		return mkSymstr(unsafe.Slice(p, n))
+	case "Slice":
+		n := int(concInt(args[1], "unsafe.Slice"))
+		p, ok := args[0].(*value)
+		if !ok {
+			panic(pathAbort{"unsafe.Slice on unsupported pointer"})
+		}
+		if p == nil || n == 0 {
+			return []value(nil)
+		}
+		return unsafe.Slice(p, n)
+	case "SliceData":
+		s := args[0].([]value)
+		if cap(s) == 0 {
+			return (*value)(nil)
+		}
+		return &s[:1][0]
+	case "StringData":
+		bs, _ := strBytes(args[0])
+		if len(bs) == 0 {
+			return (*value)(nil)
+		}
+		return &bs[0]
 	}
 
 	panic("unknown built-in: " + fn.Name())
@@ -1270,7 +1304,7 @@ func conv(t_dst, t_src types.Type, x value) value {
 		if s, ok := x.(string); ok {
 			switch ut_dst := ut_dst.(type) {
 			case *types.Slice:
-				var res []value
+				res := make([]value, 0, len(s))
 				switch ut_dst.Elem().Underlying().(*types.Basic).Kind() {
 				case types.Rune:
 					for _, r := range []rune(s) {
